@@ -1,7 +1,7 @@
 (* C22: the property as an executable, declarative checker on observed worlds, and the
    [check] function run on the implementation's observations.
 
-   [spec_step before o code v after] judges ONE transaction from what was observed of the
+   [spec_step before o ok v after] judges ONE transaction from what was observed of the
    real code (world before, error class or success, ApplyData value, world after) without
    running the model of asset.go:
      - supply: in [after], every existing asset's holdings sum to its Total and holdings of
@@ -154,9 +154,9 @@ Definition spec_freeze (before after : world) (s a x : N) (f : bool) : N :=
   | None => 1
   end.
 
-Definition spec_step (before : world) (o : op) (code v : N) (after : world) : N :=
+Definition spec_step (before : world) (o : op) (ok : bool) (v : N) (after : world) : N :=
   if negb (supply_ok after) then 1 else
-  if negb (code =? 0) then (if asset_state_equiv before after then 0 else 1) else
+  if negb ok then (if asset_state_equiv before after then 0 else 1) else
   match o with
   | OConfig s a cp => spec_config before after s a cp v
   | OXfer s a amt r asnd ct => spec_xfer before after s a amt r asnd ct v
@@ -216,6 +216,7 @@ Definition world_matches (m i : world) : bool :=
   aequiv N.eqb acct_eqb (acct_norm (w_acct m)) (acct_norm (w_acct i)).
 
 Definition res_code (r : res N) : N := match r with Ok _ => 0 | Err e => e end.
+Definition res_ok (r : res N) : bool := match r with Ok _ => true | Err _ => false end.
 Definition res_val (r : res N) : N := match r with Ok v => v | Err _ => 0 end.
 
 Definition dump_world (w : world) : term :=
@@ -256,7 +257,7 @@ Definition do_op (maxassets : N) (c : cst) (idx : N) (ot obst : term) : cst :=
       | None => bad
       | Some (code, v, iw) =>
           let good := (res_code r =? code) && (res_val r =? v) && world_matches m' iw in
-          let sp := spec_step (c_impl c) o code v iw in
+          let sp := spec_step (c_impl c) o (code =? 0) v iw in
           mkCst m' iw (worse (c_spec c) sp) (c_corr c && good)
                 (if (code =? 0) && nontrivial_op o then c_nt c + 1 else c_nt c) false
                 (if c_corr c && negb good
